@@ -20,6 +20,11 @@ because it does not mention the estimator's own "exchange region A between two r
 (via `QV.Obs.purity_pairs`).  States, `Represents`, `normalised`, `dmPure`, `dmMixed`, `bornPure`,
 `bornMixed` are those of C08.  `S₂ = −log tr ρ̂_A²`.
 
+Non-negativity of `S₂` needs a STATE (positive semidefinite, trace one): `C09_pure_is_state` gives it for every wavefunction
+that vanishes nowhere (all RBM wavefunctions, `C08_rbm_psi_ne_zero`), `C09_mixed_is_state` for the RBM density matrix under
+C02's guard `NZ` (`C09_renyi_nonneg_mixed_rbm`); without the guard `C09_purity_pos_mixed_rbm` still gives a real, strictly
+positive purity (Hermiticity and unit trace hold for all parameters).
+
 Model definitions: QV.Model.Observables (`swapRows`, `swapApply`, `rollIdx`, `roll1`, `swapRun`,
 `normRegion`), executed against the code by the C09 correspondence check.
 -/
@@ -28,6 +33,7 @@ import Mathlib.Analysis.InnerProductSpace.Positive
 import Mathlib.Analysis.SpecialFunctions.Log.Basic
 import QV.Lemmas.Swap
 import QV.Props.C08
+import QV.Props.C02
 
 namespace QV.Props
 namespace C09
@@ -64,8 +70,8 @@ theorem trace_reducedDM (A : Fin n → Bool) (R : Op n) : Matrix.trace (reducedD
 
 theorem normSq_sum_pos (psi : Cfg n → C ℝ) (hψ : ∀ σ, psi σ ≠ (0, 0)) : 0 < ∑ τ, C.normSq (psi τ) := by
   refine Finset.sum_pos (fun σ _ => ?_) Finset.univ_nonempty
-  rw [toC_normSq]
-  exact Complex.normSq_pos.2 (toC_ne_zero (hψ σ))
+  rw [Obs.toC_normSq]
+  exact Complex.normSq_pos.2 (Obs.toC_ne_zero (hψ σ))
 
 /-! ### The estimator -/
 
@@ -174,10 +180,10 @@ theorem C09_pure_is_state (psi : Cfg n → C ℝ) (hψ : ∀ σ, psi σ ≠ (0, 
   have hTc : ∑ τ, dmPure psi τ τ = ((∑ τ, C.normSq (psi τ) : ℝ) : ℂ) := by
     push_cast
     refine Finset.sum_congr rfl (fun τ _ => ?_)
-    rw [dmPure, Complex.mul_conj, toC_normSq]
+    rw [dmPure, Complex.mul_conj, Obs.toC_normSq]
   constructor
   · rw [Matrix.posSemidef_iff_eq_sum_vecMulVec]
-    refine ⟨1, fun _ σ => toC (psi σ) / ((Real.sqrt (∑ τ, C.normSq (psi τ)) : ℝ) : ℂ), ?_⟩
+    refine ⟨1, fun _ σ => Obs.toC (psi σ) / ((Real.sqrt (∑ τ, C.normSq (psi τ)) : ℝ) : ℂ), ?_⟩
     ext σ σ'
     simp only [Matrix.of_apply, Fin.sum_univ_one, Matrix.vecMulVec_apply, Pi.star_apply, normalised,
       RCLike.star_def, map_div₀, Complex.conj_ofReal]
@@ -226,6 +232,94 @@ theorem C09_empty_region (R : Op n) (htr : (∑ s, R s s) = 1) : purity (fun _ =
   rw [purity_eq_pairs]
   simp only [combine_empty]
   rw [← Finset.sum_mul_sum, htr, one_mul]
+
+/-! ### Mixed states: the RBM density matrix is a state (audit item C09-1; from C02)
+
+`rbmRho am ph` / `rbmProb am` (Props/C08) are the density matrix and the reported probability on basis states exactly as the
+driver instantiates `ImpState.mixed`.  Index types: C02 proves `ρ = B·Bᴴ` for `C02.rhoMat`, the matrix indexed by bit-vectors
+(`rhoMat_eq_mul_conjTranspose`), which IS `Matrix.of (dmMixed (rbmRho am ph))`; no re-indexing through `Fin (2^n)` is needed. -/
+
+section mixedRBM
+variable {hid a : ℕ}
+
+/-- **the normalised RBM density matrix is a state** (positive semidefinite, trace one) under C02's guard `NZ` on all pairs of
+basis states; the trace-one part needs no guard. -/
+theorem C09_mixed_is_state (am ph : PRBM ℝ n hid a)
+    (hz : ∀ σ τ : Fin n → Bool, C02.NZ am ph (C02.bits σ) (C02.bits τ)) :
+    (Matrix.of (normalised (dmMixed (rbmRho am ph))) : Matrix (Cfg n) (Cfg n) ℂ).PosSemidef
+      ∧ (∑ s, normalised (dmMixed (rbmRho am ph)) s s) = 1 := by
+  have hT := rbm_trace_pos am
+  have hTc := rbm_trace am ph
+  constructor
+  · have hM : (Matrix.of (normalised (dmMixed (rbmRho am ph))) : Matrix (Cfg n) (Cfg n) ℂ)
+        = (1 / ∑ τ, rbmProb am τ : ℝ) • C02.rhoMat am ph := by
+      ext σ σ'
+      simp only [Matrix.of_apply, normalised, Matrix.smul_apply, hTc]
+      rw [Complex.real_smul]
+      push_cast
+      rw [div_eq_inv_mul, one_div]
+      rfl
+    rw [hM, C02.rhoMat_eq_mul_conjTranspose am ph hz]
+    exact (Matrix.posSemidef_self_mul_conjTranspose _).smul (by positivity)
+  · simp only [normalised]
+    rw [← Finset.sum_div, div_self]
+    rw [hTc]; exact_mod_cast hT.ne'
+
+/-- **C09.1 for the RBM density matrix, no hypotheses**: the pair average of the swap estimator is `Re tr(ρ̂_A²)` for every
+parameter setting (the hypotheses of `C09_purity_mixed` hold by `C08_rbm_rho_diag`, i.e. C02_diagonal). -/
+theorem C09_purity_mixed_rbm (am ph : PRBM ℝ n hid a) (A : Fin n → Bool) :
+    ∑ s1, ∑ s2, bornMixed (rbmProb am) s1 * bornMixed (rbmProb am) s2
+        * swapApply (ImpState.mixed (rbmRho am ph) (rbmProb am)) A s1 s2
+      = (purity A (normalised (dmMixed (rbmRho am ph)))).re :=
+  C09_purity_mixed _ _ (fun σ => (C08_rbm_rho_diag am ph σ).1) (fun σ => (C08_rbm_rho_diag am ph σ).2.ne') A
+
+/-- without any guard (Hermiticity and unit trace hold for all parameters): the purity of every region of the RBM density
+matrix is real and strictly positive, so `S₂ = −log tr ρ̂_A²` is well defined; the empty region has purity one. -/
+theorem C09_purity_pos_mixed_rbm (am ph : PRBM ℝ n hid a) (A : Fin n → Bool) :
+    (purity A (normalised (dmMixed (rbmRho am ph)))).im = 0
+      ∧ 0 < (purity A (normalised (dmMixed (rbmRho am ph)))).re
+      ∧ purity (fun _ => false) (normalised (dmMixed (rbmRho am ph))) = 1 := by
+  have htr : (∑ s, normalised (dmMixed (rbmRho am ph)) s s) = 1 := by
+    simp only [normalised]
+    rw [← Finset.sum_div, div_self]
+    rw [rbm_trace am ph]; exact_mod_cast (rbm_trace_pos am).ne'
+  obtain ⟨h1, _, h3⟩ := C09_purity_real_pos A _ (C08_rbm_rho_hermitian am ph)
+  exact ⟨h1, h3 htr, C09_empty_region _ htr⟩
+
+/-- **C09.2' for mixed states**: under C02's guard `NZ` on all pairs of basis states (no auxiliary unit with
+`1 + e^{x+iy} = 0`; e.g. `Σ_j |U_μ k j| < 2π`, `C02_NZ_of_phase_weights_small`) the exact pair average of the swap estimator on
+the RBM density matrix lies in `(0, 1]`, i.e. the derived second Rényi entropy `−log(average)` is non-negative, for every
+region.  Off the guard (a measure-zero set of parameters where the real-number model of `log 0` differs from the float code)
+only `C09_purity_pos_mixed_rbm` is claimed. -/
+theorem C09_renyi_nonneg_mixed_rbm (am ph : PRBM ℝ n hid a)
+    (hz : ∀ σ τ : Fin n → Bool, C02.NZ am ph (C02.bits σ) (C02.bits τ)) (A : Fin n → Bool) :
+    let avg := ∑ s1, ∑ s2, bornMixed (rbmProb am) s1 * bornMixed (rbmProb am) s2
+        * swapApply (ImpState.mixed (rbmRho am ph) (rbmProb am)) A s1 s2
+    0 < avg ∧ avg ≤ 1 ∧ 0 ≤ -Real.log avg := by
+  intro avg
+  have hs := C09_mixed_is_state am ph hz
+  have h := C09_renyi_nonneg A _ hs.1 hs.2
+  have hle := C09_purity_le_one A _ hs.1 hs.2
+  have e : avg = (purity A (normalised (dmMixed (rbmRho am ph)))).re := C09_purity_mixed_rbm am ph A
+  rw [e]
+  exact ⟨h.1, hle, h.2.2⟩
+
+/-- non-vacuity: the concrete mixed-state model of C02's example (`n = 2`, `h = 3`, `a = 2`, all parameters non-zero)
+satisfies the guard, so the entropy bound applies to it. -/
+example :
+    let am : PRBM ℝ 2 3 2 := ⟨fun i j => (i.val : ℝ) - j.val + 0.5, fun k j => (k.val : ℝ) + j.val - 2.5,
+      fun j => if j = 0 then -1.5 else 2, fun i => if i = 0 then 0.7 else -0.3, fun k => if k = 0 then 1.2 else -0.4⟩
+    let ph : PRBM ℝ 2 3 2 := ⟨fun i j => 0.3 * (i.val : ℝ) - j.val + 0.25, fun k j => if k.val = j.val then 1 else -0.5,
+      fun j => if j = 0 then 0.5 else -1, fun i => if i = 0 then -0.2 else 0.9, fun _ => 0.8⟩
+    let A : Fin 2 → Bool := fun j => j = 0
+    0 ≤ -Real.log (∑ s1, ∑ s2, bornMixed (rbmProb am) s1 * bornMixed (rbmProb am) s2
+        * swapApply (ImpState.mixed (rbmRho am ph) (rbmProb am)) A s1 s2) := by
+  intro am ph A
+  refine (C09_renyi_nonneg_mixed_rbm am ph (C02.C02_NZ_of_phase_weights_small am ph (fun k => ?_)) A).2.2
+  have hpi := Real.two_le_pi
+  fin_cases k <;> simp [ph, Fin.sum_univ_two] <;> norm_num <;> linarith
+
+end mixedRBM
 
 /-! ### Pairing inside a batch, no mutation, region argument -/
 
